@@ -480,6 +480,13 @@ def index(c):
                 if a_ is not None and k_ is not None and all((int(a_) + i) in src.items.f for i in range(int(k_))):
                     items = Struct({i: src.items.f[int(a_) + i] for i in range(int(k_))}, tag="elems")
             return Seq(n_, None, items, (vw[0], vw[1] + o_) if vw is not None else None, src_window(cp, ln, o_) if vw is None else None)
+        if m.group("stridx"):
+            # a str may only be cut at a char boundary: 0 and len always are one; any other offset is one only for text the
+            # program knows nothing about (an offset that is neither is an obligation nobody can discharge here)
+            for b_ in (lo, hi):
+                if b_ is not None and not (c.st.sys.entails_eq(b_) or c.st.sys.entails_eq(ln - b_)):
+                    c.oblige(False, "index:char-boundary", "str %s: the offset is a char boundary" % what,
+                             "offset %r of a str of length %r: only 0 and len are known to be char boundaries" % (c.st.sys.reduce(b_), c.st.sys.reduce(ln)))
         if lo is not None and hi is not None:
             c.require_ge(hi - lo, "index:order", "%s: start <= end" % what)
             c.require_ge(ln - hi, "index:end", "%s: end <= len" % what)
